@@ -374,6 +374,10 @@ def run(loader, R, tier):
                            else "a " + level, key))
     R.floor("nodes printed through a replacement expression", len(seen6), 10)
 
+    # ---------------------------------------------------------------- R15.7
+    from rules.c44 import infix_operands
+    infix_operands(prog, R, "R15.7", only=set(PRINTERS))
+
 
 MANIFEST = dict(
     technique="table agreement (dispatch table x printer name table x "
